@@ -237,7 +237,22 @@ def gen_path(rng, tree, want="any"):
             return join(base, "[%d:%d]" % (lo, hi), sep), "slice"
         if roll < 0.70 and node.kind == "s" and \
                 node.value[0] in ("str", "int") and simple(str(node.value[1])):
-            return join(base, "[.=%s]" % node.value[1], sep), "search-eq"
+            text = str(node.value[1])
+            if node.value[0] == "int":
+                oper = rng.choice(["=", "=", ">=", "<=", "!=", ">", "<"])
+                form = "[.%s%s]" % (oper, text)
+            else:
+                oper = rng.choice(["=", "=", "^", "$", "%", "!=", "=~"])
+                if oper == "=~":
+                    form = "[.=~/%s/]" % text[0]
+                elif oper in ("^", "$", "%"):
+                    form = "[.%s%s]" % (oper, text[0] if oper != "$"
+                                        else text[-1])
+                else:
+                    form = "[.%s%s]" % (oper, text)
+            if rng.random() < 0.15:
+                form = "[!" + form[1:]
+            return join(base, form, sep), "search-" + oper
         if roll < 0.76 and node.kind == "m" and node.items:
             key, val = rng.choice(node.items)
             if val.kind == "s" and val.value[0] in ("str", "int") and \
